@@ -53,6 +53,7 @@ func dagShapes(J, D int, dedupe bool) [][][]int {
 type Family struct {
 	Name     string
 	Outcomes []int
+	PerJob   [][]int
 	MaxGoex  int
 	PreCanc  bool
 	Timer    bool
@@ -68,6 +69,7 @@ var (
 	FamTimer     = Family{Name: "timer", Outcomes: []int{OutOK}, Timer: true}
 	FamCancel    = Family{Name: "cancel", Outcomes: []int{OutOK, OutErr, OutCancel}, PreCanc: true, Timer: true}
 	FamHang      = Family{Name: "hang", Outcomes: []int{OutOK, OutHang}, Timer: true}
+	FamErrCtx    = Family{Name: "errctx", Outcomes: []int{OutOK, OutErr, OutErrCanceled}}
 	FamEmit      = Family{Name: "emit", Outcomes: []int{OutOK, OutErr}, Emitter: true, Ticks: 1}
 	FamEmit2     = Family{Name: "emit2", Outcomes: []int{OutOK, OutErr}, Emitter: true, Ticks: 2}
 )
@@ -78,7 +80,7 @@ func mkCubes(prefix string, shapes [][][]int, Ns []int, modes []bool, fams []Fam
 		for _, n := range Ns {
 			for _, m := range modes {
 				for _, f := range fams {
-					c := &Cube{Deps: sh, N: n, Continue: m, Outcomes: f.Outcomes, MaxGoex: f.MaxGoex, PreCanc: f.PreCanc, Timer: f.Timer, Emitter: f.Emitter, Ticks: f.Ticks}
+					c := &Cube{Deps: sh, N: n, Continue: m, Outcomes: f.Outcomes, PerJob: f.PerJob, MaxGoex: f.MaxGoex, PreCanc: f.PreCanc, Timer: f.Timer, Emitter: f.Emitter, Ticks: f.Ticks}
 					out = append(out, c)
 				}
 			}
@@ -109,6 +111,10 @@ func L1Plan(prop, tier string) []*Cube {
 	var cubes []*Cube
 	small := shapesUpTo(2, 2, true) // J=1; J=2: independent, chain, duplicate dependency
 	chain2 := [][][]int{{{}, {0}}}
+	chain3 := [][][]int{{{}, {0}, {1}}}
+	failSkipThen := [][][]int{{{}, {0}, {}}} // A; B after A; C independent (enqueued last)
+	indepThenDep := [][][]int{{{}, {}, {0}}} // A; C independent; B after A (queued behind C)
+	fanOut3 := [][][]int{{{}, {0}, {0}}}     // A; B and C after A
 	j1 := [][][]int{{{}}}
 	N12 := []int{1, 2}
 	N1 := []int{1}
@@ -120,12 +126,16 @@ func L1Plan(prop, tier string) []*Cube {
 	case "C01":
 		add("a", small, N12, both, FamPlain)
 		add("g", append(j1, chain2...), N12, both, FamGoexit)
+		// transitive chain with a failing head: late enqueue behind an invalidated job
+		add("c", chain3, N1, both, Family{Name: "chainfail", Outcomes: []int{OutOK, OutErr}, PerJob: [][]int{{OutErr}, {OutOK}, {OutOK, OutErr}}})
 		if !q {
 			add("b", j3, N12, both, FamPlain)
 			add("h", small, N12, both, FamGoexit)
 		}
 	case "C03":
 		add("a", small, N12, both, FamPlain)
+		// capacity must survive a skipped job: A fails, B (after A) is skipped, C must still be dispatched
+		add("c", failSkipThen, N1, coe, Family{Name: "failskip", Outcomes: []int{OutOK, OutErr}, PerJob: [][]int{{OutErr}, {OutOK}, {OutOK}}})
 		add("g", append(j1, chain2...), N12, ff, FamGoexit)
 		if !q {
 			add("b", j3, []int{2}, both, FamPlain)
@@ -136,6 +146,7 @@ func L1Plan(prop, tier string) []*Cube {
 		add("a", small, N12, both, FamPlain)
 	case "C05":
 		add("a", small, N12, both, FamPlain)
+		add("c", append(chain3, failSkipThen...), N1, coe, Family{Name: "headfails", Outcomes: []int{OutOK, OutErr}, PerJob: [][]int{{OutErr}, {OutOK}, {OutOK}}})
 		add("g", append(j1, chain2...), N12, ff, FamGoexit)
 		add("p", append(j1, chain2...), N1, both, FamPre, FamJobCancel)
 		add("e", j1, N1, ff, FamEmit)
@@ -156,14 +167,17 @@ func L1Plan(prop, tier string) []*Cube {
 		}
 	case "C07":
 		add("a", small, N12, ff, FamPlain)
+		add("c", chain3, N1, ff, Family{Name: "chainmid", Outcomes: []int{OutOK, OutErr}, PerJob: [][]int{{OutOK}, {OutOK, OutErr}, {OutOK}}})
 		add("g", append(j1, chain2...), N12, ff, FamGoexit)
 		add("p", append(j1, chain2...), N1, ff, FamPre, FamJobCancel)
+		add("x", append(j1, chain2...), N1, ff, FamErrCtx) // a task's own error is a context error while the directive's context is live
 		if !q {
 			add("b", j3, N12, ff, FamPlain)
 			add("h", small, N12, ff, FamGoexit, FamPre, FamJobCancel, FamTimer)
 		}
 	case "C08":
 		add("a", small, N12, coe, FamPlain)
+		add("c", chain3, N1, coe, Family{Name: "chainfail", Outcomes: []int{OutOK, OutErr}, PerJob: [][]int{{OutErr}, {OutOK}, {OutOK, OutErr}}})
 		add("g", append(j1, chain2...), N12, coe, FamGoexit)
 		add("p", append(j1, chain2...), N1, coe, FamPre, FamJobCancel)
 		if !q {
@@ -172,6 +186,8 @@ func L1Plan(prop, tier string) []*Cube {
 		}
 	case "C09":
 		add("p", small, N1, both, FamPre, FamJobCancel)
+		// a dependent becomes ready, waits for the only worker, and the context is cancelled by the job occupying it
+		add("c", indepThenDep, N1, both, Family{Name: "jobcancel-mid", Outcomes: []int{OutOK, OutCancel}, PerJob: [][]int{{OutOK}, {OutOK, OutCancel}, {OutOK}}})
 		add("t", append(j1, chain2...), N1, both, FamTimer, FamHang)
 		if !q {
 			add("q", small, []int{2}, both, FamPre, FamJobCancel, FamTimer, FamHang)
@@ -179,6 +195,8 @@ func L1Plan(prop, tier string) []*Cube {
 		}
 	case "C19":
 		add("a", small, N1, both, FamEmit)
+		// invalidated jobs at the front of the ready list
+		add("f", fanOut3, N1, coe, Family{Name: "emit-headfails", Outcomes: []int{OutOK, OutErr}, PerJob: [][]int{{OutErr}, {OutOK}, {OutOK}}, Emitter: true, Ticks: 1})
 		add("n", j1, []int{2}, ff, FamEmit)
 		if !q {
 			add("b", small, N12, both, FamEmit2)
@@ -198,6 +216,10 @@ func l1Relevant(prop string, ob Obligation) bool {
 		return ob.Prop == "C01" || ob.Prop == prop
 	}
 	if ob.Prop == "bound" || ob.Prop == "fault" {
+		return true
+	}
+	if prop == "C03" && ob.Prop == "C05" {
+		// capacity that is lost entirely shows as a runnable job never dispatched
 		return true
 	}
 	return ob.Prop == prop
@@ -246,6 +268,7 @@ type Violation struct {
 	PreCanc  bool              `json:"pre_cancel"`
 	Timer    bool              `json:"timer_armed"`
 	Sig      string            `json:"signature"`
+	Oracle   string            `json:"oracle,omitempty"` // property whose replay oracle observes this violation
 	Extra    map[string]string `json:"extra,omitempty"`
 }
 
@@ -292,6 +315,11 @@ func RunL1Cube(P *Program, c *Cube, prop string, solver string, timeoutMs int) (
 	var obs []Obligation
 	for _, ob := range l.Obligations() {
 		if l1Relevant(prop, ob) {
+			if prop == "C03" && ob.Prop == "C05" {
+				ob.Oracle = "C05"
+				ob.Prop = "C03"
+				ob.Name = "capacity lost: a runnable job is never dispatched although no job is executing (" + ob.Name + ")"
+			}
 			obs = append(obs, ob)
 		}
 	}
@@ -308,66 +336,86 @@ func RunL1Cube(P *Program, c *Cube, prop string, solver string, timeoutMs int) (
 		}
 		return v, m
 	}
-	// 1. all unsat-expected obligations at once
-	any := B.False
-	n := 0
+	// 1. all unsat-expected obligations at once; on sat the model tells which
+	// obligation it violates, and the rest is asked again as one disjunction
+	remaining := []Obligation{}
 	for _, ob := range obs {
 		if !ob.WantSat {
+			remaining = append(remaining, ob)
+		}
+	}
+	res.Obligations = len(remaining)
+	recordViolation := func(ob Obligation, m map[int]uint64) {
+		if ob.Prop == "bound" || ob.Prop == "fault" {
+			res.Inconcl = true
+			res.Notes = append(res.Notes, "internal obligation satisfiable: "+ob.Name)
+		}
+		ev := func(t *Term) uint64 { return m[t.ID] }
+		viol := Violation{Prop: ob.Prop, Name: ob.Name, Cube: c, Schedule: l.Decode(ev), Oracle: ob.Oracle}
+		for _, o := range l.Out {
+			viol.Outcomes = append(viol.Outcomes, int(m[o.ID]))
+		}
+		if c.PreCanc {
+			viol.PreCanc = m[l.preCancel.ID] != 0
+		}
+		if c.Timer {
+			viol.Timer = m[l.timerArmed.ID] != 0
+		}
+		viol.Sig = l.Signature(ob, viol)
+		res.Violations = append(res.Violations, viol)
+	}
+	for len(remaining) > 0 {
+		any := B.False
+		var want []*Term
+		for _, ob := range remaining {
 			any = B.Or(any, ob.Assert)
-			n++
+			want = append(want, ob.Assert)
 		}
-	}
-	res.Obligations = n
-	t1 := time.Now()
-	v := Unknown
-	if os.Getenv("VERIF_NOCOMBINED") == "" {
-		v, _ = check(any, nil)
-	}
-	if v == Unsat {
-		for _, ob := range obs {
-			if !ob.WantSat {
-				res.Obs = append(res.Obs, ObResult{Prop: ob.Prop, Name: ob.Name, Verdict: "unsat", Seconds: time.Since(t1).Seconds(), Via: "combined query"})
+		want = append(want, l.ModelTerms()...)
+		t1 := time.Now()
+		v, m := check(any, want)
+		secs := time.Since(t1).Seconds()
+		if v == Unsat {
+			for _, ob := range remaining {
+				res.Obs = append(res.Obs, ObResult{Prop: ob.Prop, Name: ob.Name, Verdict: "unsat", Seconds: secs, Via: "combined query"})
 				res.Discharged++
 			}
+			break
 		}
-	} else {
-		for _, ob := range obs {
-			if ob.WantSat {
-				continue
-			}
-			t2 := time.Now()
-			v, m := check(ob.Assert, l.ModelTerms())
-			res.Obs = append(res.Obs, ObResult{Prop: ob.Prop, Name: ob.Name, Verdict: v.String(), Seconds: time.Since(t2).Seconds()})
-			if os.Getenv("VERIF_VERBOSE") != "" {
-				fmt.Fprintf(os.Stderr, "    [%s] %s: %s %.1fs\n", ob.Prop, ob.Name, v, time.Since(t2).Seconds())
-			}
-			switch v {
-			case Unsat:
-				res.Discharged++
-			case Unknown:
-				res.Inconcl = true
-			case Sat:
-				if ob.Prop == "bound" || ob.Prop == "fault" {
-					// a bound that is too small or a runtime fault in scheduler code:
-					// reported as inconclusive with the schedule attached
+		if v == Unknown {
+			// fall back to one query per obligation
+			for _, ob := range remaining {
+				t2 := time.Now()
+				v2, m2 := check(ob.Assert, l.ModelTerms())
+				res.Obs = append(res.Obs, ObResult{Prop: ob.Prop, Name: ob.Name, Verdict: v2.String(), Seconds: time.Since(t2).Seconds()})
+				switch v2 {
+				case Unsat:
+					res.Discharged++
+				case Unknown:
 					res.Inconcl = true
-					res.Notes = append(res.Notes, "internal obligation satisfiable: "+ob.Name)
+				case Sat:
+					recordViolation(ob, m2)
 				}
-				ev := func(t *Term) uint64 { return m[t.ID] }
-				viol := Violation{Prop: ob.Prop, Name: ob.Name, Cube: c, Schedule: l.Decode(ev)}
-				for _, o := range l.Out {
-					viol.Outcomes = append(viol.Outcomes, int(m[o.ID]))
-				}
-				if c.PreCanc {
-					viol.PreCanc = m[l.preCancel.ID] != 0
-				}
-				if c.Timer {
-					viol.Timer = m[l.timerArmed.ID] != 0
-				}
-				viol.Sig = l.Signature(ob, viol)
-				res.Violations = append(res.Violations, viol)
+			}
+			break
+		}
+		var next []Obligation
+		hit := false
+		for _, ob := range remaining {
+			if m[ob.Assert.ID] != 0 || ob.Assert.IsTrue() {
+				hit = true
+				res.Obs = append(res.Obs, ObResult{Prop: ob.Prop, Name: ob.Name, Verdict: "sat", Seconds: secs, Via: "model of the combined query"})
+				recordViolation(ob, m)
+			} else {
+				next = append(next, ob)
 			}
 		}
+		if !hit {
+			res.Inconcl = true
+			res.Notes = append(res.Notes, "combined query satisfiable but no obligation true in its model")
+			break
+		}
+		remaining = next
 	}
 	// 2. vacuity witnesses
 	for _, ob := range obs {
